@@ -276,6 +276,13 @@ func genJSONCase(r *rand.Rand, id int) Case {
 			g = &jgen{T: 2, KV: []jgenKV{{jKeys[r.Intn(len(jKeys))], g}}}
 		}
 		line := g.text(r)
+		if r.Intn(25) == 0 {
+			// a key with ill-formed UTF-8 written raw: whatever jx makes of it (refuses it, or hands the bytes on), the model runs on that
+			line = "{\"" + []string{"a\xa9k", "\xc0\xafk", "k\xed\xa0\x80", "\xffz"}[r.Intn(4)] + "\":1," + line[1:]
+			if len(g.KV) == 0 || g.T != 2 {
+				line = "{\"" + "a\xa9k" + "\":1}"
+			}
+		}
 		switch r.Intn(12) {
 		case 0:
 			line = line[:r.Intn(len(line)+1)]
@@ -303,6 +310,54 @@ func genJSONCase(r *rand.Rand, id int) Case {
 		row.Tree, row.Plain = jtree(line)
 		res, perr := single(func(up shared.RequestProcessor) shared.RequestProcessor {
 			return &ip.ParserPlanner{GenericPlanner: ip.GenericPlanner{Main: up}, Op: "json", ParameterNames: names, ParameterValues: vals}
+		}, Entry{Labels: map[string]string{}, Msg: hx.Hex(line)})
+		if perr == nil && len(res) == 1 && res[0].Err == "" {
+			row.Ok = true
+			row.KV = cloneMapNN(res[0].Labels)
+		}
+		c.Tab.Parse = append(c.Tab.Parse, row)
+	}
+	// two logfmt rows: keys with multi-byte characters and with bytes that are no character (logfmt takes any byte above ' ' in
+	// a key; each such byte is named with one "_"), without and with fields
+	for k := 0; k < 2; k++ {
+		var parts []string
+		for i, n := 0, 1+r.Intn(4); i < n; i++ {
+			key := keyPool[r.Intn(len(keyPool))]
+			switch r.Intn(3) {
+			case 0:
+				key = uKeys[r.Intn(len(uKeys))]
+			case 1:
+				key = badUTF8Keys[r.Intn(len(badUTF8Keys))]
+			}
+			switch r.Intn(4) {
+			case 0:
+				parts = append(parts, key)
+			case 1:
+				parts = append(parts, key+"="+strconv.Quote(valPool[r.Intn(len(valPool))]+" q"))
+			default:
+				parts = append(parts, key+"="+valPool[r.Intn(6)])
+			}
+		}
+		line := ""
+		for i, p := range parts {
+			if i > 0 {
+				line += " "
+			}
+			line += p
+		}
+		var names, vals []string
+		if r.Intn(3) == 0 {
+			names = []string{"x", "lv"}
+			vals = []string{[]string{"level", "app", "a"}[r.Intn(3)], []string{"level", "app", "job"}[r.Intn(3)]}
+		}
+		ps, ok := jparams(names, vals)
+		if !ok {
+			continue
+		}
+		row := ParseRow{ID: 100 + k, Msg: hx.Hex(line), Logfmt: true, Params: ps}
+		row.Pairs, row.PairsOk = logfmtPairs(line)
+		res, perr := single(func(up shared.RequestProcessor) shared.RequestProcessor {
+			return &ip.ParserPlanner{GenericPlanner: ip.GenericPlanner{Main: up}, Op: "logfmt", ParameterNames: names, ParameterValues: vals}
 		}, Entry{Labels: map[string]string{}, Msg: hx.Hex(line)})
 		if perr == nil && len(res) == 1 && res[0].Err == "" {
 			row.Ok = true
